@@ -8,7 +8,7 @@ pat=${1:-*}
 out=mutants/RESULTS.tsv
 tmp=$(mktemp)
 [ -f $out ] && grep -v "^mutant" $out > $tmp.old || : > $tmp.old
-for m in mutants/$pat.diff; do
+for m in mutants/$pat.diff; do [ -f "$m" ] || continue
   name=$(basename $m .diff)
   id=${name%%-*}
   s=$(date +%s)
